@@ -218,7 +218,8 @@ func c12build(kind string, r *vh.RNG) (*c12env, error) {
 				if k == 2 {
 					// a peer that says a few things, ends its side of the stream and goes on listening: the node sees EOF first,
 					// the peer must still see the connection released
-					go func() { defer e.wg.Done(); e.peerHalfClose(c, r.Intn(6)) }()
+					nSay := r.Intn(6)
+					go func() { defer e.wg.Done(); e.peerHalfClose(c, nSay) }()
 					continue
 				}
 				go func() { defer e.wg.Done(); e.peerTraffic(c, 300) }()
